@@ -591,12 +591,73 @@ func (f rawIPFS) Cat(path string) (io.ReadCloser, error) {
 	return io.NopCloser(strings.NewReader(b)), nil
 }
 
+// emitAltRouting: the target of a rel="alternate" link is a URL like any other - it is routed by its scheme. A page whose
+// alternate is an ipfs URL is answered by the IPFS client (or through the gateway), and any other scheme is rejected; the
+// HTTP client only ever sees http(s) URLs.
+func emitAltRouting(out *Out, r *Rng) {
+	page := fmt.Sprintf("https://pages.example/p%d.html", r.Intn(1000))
+	targets := []string{"ipfs://QmAlt/doc.json", "ftp://files.example/doc.jsonld", "file:///etc/ctx.json", "gopher://old.example/1", "HTTP://upper.example/doc.jsonld", "ws://sock.example/x"}
+	t := targets[r.Intn(len(targets))]
+	cfg := loaderCfg{cacheMode: r.Pick([]string{"memory", "none", "virtual"})}
+	switch r.Intn(3) {
+	case 0:
+		cfg.ipfsCli = true
+	case 1:
+		cfg.ipfsGW = "https://gw.example"
+	}
+	if r.Chance(30) {
+		cfg.ipfsCli, cfg.ipfsGW = true, "https://gw.example"
+	}
+	o := &scriptedOrigin{docs: map[string]*orgEntry{}, budget: 40}
+	o.docs[page] = &orgEntry{alt: t, policy: r.Pick([]string{"max-age=60", "no-store"})}
+	// whatever is asked, there is an answer: a document under the URL itself (should the HTTP client be sent there), under the
+	// gateway's URL for it, and at the IPFS node
+	o.docs[t] = &orgEntry{ver: 66, policy: "max-age=60"}
+	o.docs["https://gw.example/ipfs/QmAlt/doc.json"] = &orgEntry{ver: 7, policy: "max-age=60"}
+	o.docs["ipfs-node:QmAlt/doc.json"] = &orgEntry{ver: 8}
+	loader, _ := cfg.build(o)
+	var why []string
+	doc, err := guard(10*time.Second, func() (*ld.RemoteDocument, error) { return loader.LoadDocument(page) })
+	isIPFS := strings.HasPrefix(t, "ipfs://")
+	want := 0 // error
+	switch {
+	case isIPFS && cfg.ipfsCli:
+		want = 8
+	case isIPFS && cfg.ipfsGW != "":
+		want = 7
+	}
+	got := 0
+	if err == nil {
+		got = docVersion(doc)
+	}
+	if got != want {
+		why = append(why, fmt.Sprintf("page with alternate %s (ipfs client %v, gateway %q): loaded version %d (%v), expected %d (0 = an error)", t, cfg.ipfsCli, cfg.ipfsGW, got, err, want))
+	}
+	o.mu.Lock()
+	for _, u := range o.log {
+		if !strings.HasPrefix(u, "http://") && !strings.HasPrefix(u, "https://") && !strings.HasPrefix(u, "ipfs-node:") {
+			why = append(why, fmt.Sprintf("the HTTP client was sent to %s", u))
+			break
+		}
+	}
+	lg := fmt.Sprint(o.log)
+	o.mu.Unlock()
+	if errClass(err) == "panic" || errClass(err) == "hang" {
+		why = append(why, "loader "+errClass(err)+": "+err.Error())
+	}
+	out.Emit(Case{Op: "none", In: J{"cfg": cfg.J(), "page": page, "alternate": t, "requests": lg}, Impl: okJ(got), Prop: propOf(why),
+		Tags: []string{"alternate-routing", "target:" + strings.SplitN(t, ":", 2)[0]}, NT: true})
+}
+
 func genC19(out *Out, r *Rng, tier string, n int, shard int) {
 	if shard == 0 {
 		emitMerklizeIPFSOptions(out, r)
 	}
 	for i := 0; i < n; i++ {
 		emitLoaderHistory(out, r)
+		if i%4 == 0 {
+			emitAltRouting(out, r)
+		}
 	}
 	if tier == "thorough" && shard < 4 {
 		emitRealTimeHistory(out, r)
